@@ -155,20 +155,25 @@ def _event_and_cfg(lines, line):
 
 
 def _replay_items(e, isolate=True):
-    """as sent, then (for isolation) the plain rendering and every varied attribute alone"""
+    """as sent, then (for isolation) the plain rendering, every varied attribute alone and every pair of them.  The
+    spelling of the match criteria in the Hookaidofile ("spell": inline / through named matchers) is one of the attributes."""
     base = {"row": e["row"], "k": e["k"], "rseed": e["rseed"], "req": e["req"]}
-    items = [dict(base, mask=e.get("mask", "*"))]
+    spell = e.get("spell", "")
+    items = [dict(base, mask=e.get("mask", "*"), spell=spell)]
     labels = [None]
-    if isolate and e.get("mask", "*") != "":
-        items.append(dict(base, mask=""))
+    if isolate and (e.get("mask", "*") != "" or spell):
+        items.append(dict(base, mask="", spell=""))
         labels.append("plain")
-        varied = [a for a in sorted(set(k.split("-")[0] for k in (e.get("conc", {}).get("var") or {}))) if a in MASK_ATTRS]
+        varied = [a for a in sorted(set(k.split("-")[0] for k in (e.get("conc", {}).get("var") or {}))) if a in MASK_ATTRS + ("spell",)]
+
+        def item(attrs):
+            return dict(base, mask=",".join(a for a in attrs if a != "spell"), spell=spell if "spell" in attrs else "")
         for a in varied:
-            items.append(dict(base, mask=a))
+            items.append(item([a]))
             labels.append(a)
         for i, a in enumerate(varied):
             for b in varied[i + 1:]:
-                items.append(dict(base, mask=a + "," + b))
+                items.append(item([a, b]))
                 labels.append(a + "," + b)
     return items, labels
 
@@ -201,16 +206,19 @@ def _triage_one(ctx, check, samples, tag):
         e, c = _event_and_cfg(_load_lines(path), line)
         items, labels = _replay_items(e)
         events, by_line = _run_replay(ctx, c, items, "%s-%d" % (tag, n))
-        if check not in by_line.get(2, []):
+        # the replay trace has a Cfg line before every request: item i is event 2i+1 / line 2i+2
+        req_ev = lambda i: events[2 * i + 1]
+        failed = lambda i: check in by_line.get(2 * i + 2, [])
+        if not failed(0):
             continue   # did not reproduce: try the next sample of this check
         sig = "ingress/" + check
         culprit = "as sent"
         if len(items) > 1:
-            if check in by_line.get(3, []):
+            if failed(1):
                 culprit = "plain rendering of the row"
             else:
                 # smallest set of varied attributes (one, else two) whose variants alone reproduce the divergence
-                hit = [(labels[i], events[i + 1]) for i in range(2, len(items)) if check in by_line.get(i + 2, [])]
+                hit = [(labels[i], req_ev(i)) for i in range(2, len(items)) if failed(i)]
                 hit.sort(key=lambda x: (x[0].count(","), x[0]))
                 if hit:
                     lab, ev = hit[0]
@@ -221,13 +229,13 @@ def _triage_one(ctx, check, samples, tag):
                     var = e.get("conc", {}).get("var") or {}
                     sig += "/combo:" + "+".join("%s:%s" % kv for kv in sorted(var.items()) if kv[0] not in ("body",))
                     culprit = "only the combination of variants"
-        obs = events[1]["obs"]
+        obs = req_ev(0)["obs"]
         text = ("%s: %s %s Host=%s RemoteAddr=%s %s -> status %s, Allow %s, %d new message(s) %s [%s; configuration %s row %d]"
                 % (check, e["conc"]["method"], e["conc"]["target"], e["conc"]["host"], e["conc"]["remote"],
                    ("(" + e["conc"]["note"] + ")") if e["conc"].get("note") else "", obs["status"], obs["allow"], len(obs["new"]),
                    json.dumps(obs["new"]), culprit, c["tr"], e["row"]))
         replay = {"layer": "L1-ingress", "check": check, "cfg": c["cfg"], "ci": c["ci"], "cseed": c["cseed"], "items": items[:1],
-                  "hookaidofile": c.get("file", ""), "conc": e["conc"], "obs": obs, "abstract_request": e["req"]}
+                  "hookaidofile": events[0].get("file", ""), "conc": e["conc"], "obs": obs, "abstract_request": e["req"]}
         return {"sig": sig, "text": text, "replay": replay}
     return None
 
@@ -266,10 +274,12 @@ def replay(ctx, path):
     c = {"cfg": obj["cfg"], "ci": obj.get("ci", 0), "cseed": obj["cseed"], "tr": "replay"}
     events, by_line = _run_replay(ctx, c, obj["items"], "r")
     bad = False
-    for i, ev in enumerate(events[1:]):
-        checks = by_line.get(i + 2, [])
-        print("request %d: %s %s Host=%s RemoteAddr=%s -> status %s Allow %s new %s  failed checks: %s" % (
-            i, ev["conc"]["method"], ev["conc"]["target"], ev["conc"]["host"], ev["conc"]["remote"], ev["obs"]["status"],
+    for i in range(len(obj["items"])):
+        ev = events[2 * i + 1]
+        checks = by_line.get(2 * i + 2, [])
+        print("request %d: %s %s Host=%s RemoteAddr=%s%s -> status %s Allow %s new %s  failed checks: %s" % (
+            i, ev["conc"]["method"], ev["conc"]["target"], ev["conc"]["host"], ev["conc"]["remote"],
+            (" [criteria spelled '%s']" % ev["spell"]) if ev.get("spell") else "", ev["obs"]["status"],
             ev["obs"]["allow"], json.dumps(ev["obs"]["new"]), checks or "none"))
         bad = bad or bool(checks)
     if bad:
